@@ -91,7 +91,7 @@ manifest = {
          "kind_free_text": "property-based testing framework on Hypothesis 6.168 (strategies, rule-based state machines, shrinking), sharded over 16 processes; mpmath reference oracles; sys.settrace thread scheduler; atheris fuzz targets"},
     ],
     "checks": [],
-    "notes": "Repairs of genuine defects found by these checks are the unguarded 'fix:' commits in /repo listed as 'fixed:' lines in known_findings.txt; the open known finding is listed there as 'open:'. Replay: ./check <id> --replay <file>. Every check first replays its regression corpus (regressions/<id>/*.json; VERIF_NO_REGRESSIONS=1 skips it) and then runs the generated search sharded over 16 processes; VERIF_SEED selects the Hypothesis / libFuzzer seeds. VERIF_TREE=<path> (development only; the registered commands never set it) points a check at another checkout than /repo. Most checks also re-run a sample of their generated cases, with the same plain check function, in child interpreters started with -O and -OO (clauses optimised-interpreter:*), and about one generated case in five is judged on a model that has first been through a call that did not complete normally (prelude; vf/failing.py). seeded/ holds the seeded changes (patch, demonstration, meta.json with the outcome per check), the valid changes used as soundness tests (ok-*), and the mutation screen.",
+    "notes": "Repairs of genuine defects found by these checks are the unguarded 'fix:' commits in /repo listed as 'fixed:' lines in known_findings.txt; the open known finding is listed there as 'open:'. Replay: ./check <id> --replay <file>. Every check first replays its regression corpus (regressions/<id>/*.json; VERIF_NO_REGRESSIONS=1 skips it) and then runs the generated search sharded over 16 processes; VERIF_SEED selects the Hypothesis / libFuzzer seeds. VERIF_TREE=<path> (development only; the registered commands never set it) points a check at another checkout than /repo. Most checks also re-run a sample of their generated cases, with the same plain check function, in child interpreters started with -O and -OO (clauses optimised-interpreter-of-*), and about one generated case in five is judged on a model that has first been through a call that did not complete normally (prelude; vf/failing.py). seeded/ holds the seeded changes (patch, demonstration, meta.json with the outcome per check), the valid changes used as soundness tests (ok-*), and the mutation screen.",
     "not_applicable": [],
 }
 for pid in ALL:
